@@ -2,8 +2,10 @@
 (***************************************************************************)
 (* Memory-card queries (src/types/memories_track.rs: get_current,           *)
 (* get_at_time) transcribed: the cards of one entity:slot are sorted by     *)
-(* effective time, newest first (stable: ties keep insertion order), and    *)
-(* the first card that is not a retraction is returned.                     *)
+(* effective time, newest first (stable sort), and                          *)
+(* the first card that is not a retraction is returned.  The per-slot list  *)
+(* is kept newest-inserted first (SlotIndex::insert puts the id at the      *)
+(* front), so among equal effective times the card inserted last wins.      *)
 (* A card: [id, entity, slot, value, eff, rel].                             *)
 (***************************************************************************)
 EXTENDS Integers, Sequences, FiniteSets, TLC
@@ -14,7 +16,12 @@ Sel(cs, e, s) == {i \in 1..Len(cs) : cs[i].entity = e /\ cs[i].slot = s}
 Winner(cs, C) ==
   LET live == {i \in C : cs[i].rel # "retracts"} IN
   IF live = {} THEN 0
-  ELSE CHOOSE i \in live : \A j \in live : cs[j].eff < cs[i].eff \/ (cs[j].eff = cs[i].eff /\ i <= j)
+  ELSE CHOOSE i \in live : \A j \in live : cs[j].eff < cs[i].eff \/ (cs[j].eff = cs[i].eff /\ i >= j)
+
+\* what the property itself allows: any non-retracted candidate of maximal effective time (ties are not decided by C27)
+Winners(cs, C) == LET live == {i \in C : cs[i].rel # "retracts"} IN {i \in live : \A j \in live : cs[j].eff <= cs[i].eff}
+CurrentSet(cs, e, s) == Winners(cs, Sel(cs, e, s))
+AtTimeSet(cs, e, s, t) == Winners(cs, {i \in Sel(cs, e, s) : cs[i].eff <= t})
 
 GetCurrent(cs, e, s) == Winner(cs, Sel(cs, e, s))
 GetAtTime(cs, e, s, t) == Winner(cs, {i \in Sel(cs, e, s) : cs[i].eff <= t})
